@@ -13,6 +13,35 @@ prop("C08",
  "SSA path queries (must-reach non-nil error return / non-zero exit from each err!=nil edge), resolved callees",
  "DESIGN.md section 3, C08")
 
+prop("C09",
+ "Sibling agreement between encrypting and decrypting side plus fail-closed handling of the decrypt command, decided on SSA: same primitive chain from the key parameter, identical (nil) associated data, the same base64 encoding object on both sides with only string/[]byte conversions around plaintext and ciphertext, one encoding for key writer/reader, plaintext print dominated by err==nil of all three steps. Level 'other': the cryptographic round trip itself is Tink's and is not decided.",
+ "Trusted: Tink AES-SIV (daead), encoding/base64. Not decided: authenticity, arbitrary Unicode content, JSON escaping of the ciphertext text.",
+ "SSA def-use chains of the crypto calls, operand identity across the two siblings, guard facts at the print", "DESIGN.md section 3, C09")
+prop("C10",
+ "Fail-closed and single-choke-point structure of encrypt mode, decided on SSA: taint from the plaintext parameter never reaches a return of the string choke point; Encrypt has one call site; every string leaf the scalar step replaces goes through it; no time/randomness/environment source is reachable from Encrypt in the package; the key global is written only by its setter from the redact command; encrypt mode implies an installed generated/validated key before any processing call on every path. Level 'other': determinism/injectivity of AES-SIV is the primitive's contract.",
+ "Trusted: Tink determinism. Not decided: equality of ciphertexts across runs as observed bytes.",
+ "intra-package taint analysis, call-site enumeration, CFG must-pass-through from SetShouldEncrypt to processing calls", "DESIGN.md section 3, C10")
+prop("C11",
+ "Ordering and who-may-write for the key path, decided on SSA with a taint from the --encryptionKeyFile flag: only the key writer mutates that path, only under existence-test==false; the existence test answers false only for not-exist/directory; written bytes = fresh 64-byte crypto/rand key = installed key; reader validates read/base64/len==64 before success; mode has no group/other bits; every key error exits non-zero; no key operation after a processing call. Level 'other': file-system semantics are not decided.",
+ "Trusted: os.Stat/os.WriteFile semantics, crypto/rand. Not decided: umask, odd file types, sequences beyond the per-run invariant.",
+ "taint of the key path, guard facts at writer call sites, constant evaluation of mode/length, path queries for error exits", "DESIGN.md section 3, C11")
+prop("C13",
+ "Purity and shape of the pseudonym function, decided on SSA: reads only the replacement text, side table write-only package-wide, no nondeterministic source; pipeline trim '$' -> split '.' -> per-component SHA-256 -> [0:8] -> '%s_%x' -> join '.', one output per component in order; single hashing site. Level 'other': collision-freeness of truncated SHA-256 is probabilistic and not decided.",
+ "Trusted: crypto/sha256, fmt %x rendering, strings.Split/Join.",
+ "SSA shape matching of the pipeline stages with constant evaluation; package-wide use scan of the side table", "DESIGN.md section 3, C13")
+prop("C16",
+ "Wiring of Atlas mode, decided by role-taint over SSA and format-string parsing: start/end flags reach exactly the startDate=/endDate= operands through setters, globals, window function, download and per-host call; project/host/cluster reach their path segments; default window (now-604800, now); one per-host call per host in order, one client.Do per function, no loop around it; BaseURL-prefixed URLs with an https cloud.mongodb.com constant; temp file written only by io.Copy from the response body; output <outputFile>.<i> paired with file i. Level 'other': HTTP exchanges are not observed.",
+ "Trusted: net/http, digest transport round trips, connstring parsing. Not decided: SRV resolution, gzip payloads, challenge rounds.",
+ "inter-procedural role taint (per result index), constant format parsing, loop-shape recognition", "DESIGN.md section 3, C16")
+prop("C17",
+ "Acquire/release pairing of downloaded temp files on every CFG exit, with defer modelled (runs on return/panic, not on os.Exit): partial file removed on error after CreateTemp; host-loop error returns delete earlier files; after a successful download every return is covered by a registered deferred delete and every os.Exit by a direct delete; delete helper removes all elements; no other file creation on the download path. Level 'other': signals and library panics are outside.",
+ "Trusted: os.Remove/os.CreateTemp semantics, Go defer semantics.",
+ "CFG must-pass-through queries with defer/os.Exit modelling, loop-shape recognition", "DESIGN.md section 3, C17")
+prop("C20",
+ "Explicit-flow confinement of the Atlas private key, decided by inter-procedural taint over SSA seeded at the flag variable and os.Getenv(\"ATLAS_PRIVATE_KEY\"): allowed uses are comparison with \"\", local copies, passing to package functions, and the store into digest.Transport.Password; the transport object is used only as http.Client.Transport; no Authorization header / SetBasicAuth in the package. Level 'other': the digest library's behaviour on the wire is read from its source, not observed.",
+ "Trusted: mongodb-forks/digest (sends credentials only in response to a 401 challenge), net/http.",
+ "inter-procedural taint with an allow-list of use kinds; who-may-use scan of the credential-holding struct", "DESIGN.md section 3, C20")
+
 ALL = ["C%02d" % i for i in range(1, 21)]
 checks = []
 for pid in ALL:
